@@ -1294,3 +1294,4 @@ pub fn c05_three_constructors_agree() {
     assert!(c.verif_parts() == a.verif_parts());
 }
 
+
